@@ -518,6 +518,17 @@ func (a *Aff) lin(v ssa.Value) *Lin {
 		if b, ok := x.Call.Value.(*ssa.Builtin); ok && b.Name() == "len" {
 			return a.LenOf(x.Call.Args[0])
 		}
+		// the unsigned bit reader returns a value of the requested width (assumption: the reader
+		// is correct, C14): 0 <= r <= 2^w - 1 for a constant width w < 31
+		if f := x.Call.StaticCallee(); f != nil && f.Name() == "GetBitsAsUint64" && a.P.InModule(f) && len(x.Call.Args) == 3 {
+			if w, isC := constInt(x.Call.Args[2]); isC && w >= 1 && w < 31 {
+				s := a.sym(v)
+				if _, done := a.defFacts[s]; !done {
+					a.defFacts[s] = []Con{GE(LinSym(s), LinConst(0)), LE(LinSym(s), LinConst((int64(1)<<uint(w))-1))}
+				}
+				return LinSym(s)
+			}
+		}
 	case *ssa.UnOp:
 		if x.Op == token.SUB && isInteger(x.Type()) {
 			return a.Lin(x.X).Scale(-1)
@@ -778,6 +789,61 @@ func (a *Aff) threadFlag(cond ssa.Value, val bool, d, b *ssa.BasicBlock) []Con {
 		out = append(out, EQ(p.phi, rn(p.edge))...)
 	}
 	return out
+}
+
+// Infeasible: control can never be in block b - the facts that hold there are
+// contradictory, or a dominating (dis)equality between two values that are the
+// same linear form has been taken the impossible way.
+func (a *Aff) Infeasible(b *ssa.BasicBlock) bool {
+	if blockDead(b) {
+		return true
+	}
+	for _, ft := range dominatingFacts(b) {
+		bo, ok := ft.Cond.(*ssa.BinOp)
+		if !ok || (bo.Op != token.EQL && bo.Op != token.NEQ) || !isInteger(bo.X.Type()) {
+			continue
+		}
+		same := a.Lin(bo.X).Equal(a.Lin(bo.Y)) || (a.Prove(ft.From, GE(a.Lin(bo.X), a.Lin(bo.Y))) && a.Prove(ft.From, LE(a.Lin(bo.X), a.Lin(bo.Y))))
+		if same && ((bo.Op == token.NEQ) == ft.Val) {
+			return true
+		}
+	}
+	if a.Prove(b, Con{LinConst(-1)}) {
+		return true
+	}
+	return a.infeasibleViaPreds(b, 0)
+}
+
+// infeasibleViaPreds: every edge into b is infeasible (its branch condition
+// contradicts what is known at the end of the predecessor, or the predecessor
+// itself is infeasible).  Covers exits reached from any false arm of a long
+// `a && b && c` chain of checks that all hold.
+func (a *Aff) infeasibleViaPreds(b *ssa.BasicBlock, depth int) bool {
+	if depth > 8 || len(b.Preds) == 0 || b.Index == 0 {
+		return false
+	}
+	for _, p := range b.Preds {
+		if p.Dominates(b) && b.Dominates(p) {
+			return false
+		}
+		edgeDead := false
+		if ifi, ok := lastInstr(p).(*ssa.If); ok && len(p.Succs) == 2 && p.Succs[0] != p.Succs[1] {
+			val := p.Succs[0] == b
+			if k, isC := staticCond(ifi.Cond); isC && k != val {
+				edgeDead = true
+			} else if cons := a.condCons(ifi.Cond, val); len(cons) > 0 && a.Prove(p, Con{LinConst(-1)}, cons...) {
+				edgeDead = true
+			}
+		}
+		if edgeDead {
+			continue
+		}
+		if a.Prove(p, Con{LinConst(-1)}) || a.infeasibleViaPreds(p, depth+1) {
+			continue
+		}
+		return false
+	}
+	return true
 }
 
 // With closes a fact set with intrinsic facts for the goal and returns whether the goal is entailed.
